@@ -29,6 +29,7 @@ func init() {
 
 func runC15(c *core.Ctx) {
 	c15BucketPath(c)
+	c15TxHandle(c)
 	c.Rule("C15.txerr", "A10: in every transaction body of services/storage an error of tx.Put/Delete/Get/List/Exists is not discarded and, where found non-nil, makes the body return a non-nil error")
 	c.Rule("C15.txwrap", "A2: DoUpdate begins a transaction, defers Rollback, runs the body, returns its error without committing, commits only after a nil error; DoView defers Rollback and never commits")
 	c.Rule("C15.put", "A1: putTx: exists∧¬allowReplace ⇒ ErrObjectExists without any write; ¬exists∧requireReplace ⇒ ErrNoObjectExists without any write; otherwise data Put, then per index: Put(newKey) iff ¬replacing ∨ oldKey≠newKey, and Delete(oldKey) after it iff replacing ∧ oldKey≠newKey")
